@@ -51,8 +51,9 @@ class Lean:
             Lean._built = (False, 'extract_tables failed: ' + ''.join(traceback.format_exception_only(type(e), e)))
             return Lean._built
         try:
-            from harness import pytolean
+            from harness import pytolean, pytolean_poly
             Lean.translation = pytolean.write_if_changed()
+            Lean.translation.update({'polynomial.py:' + k: v for k, v in pytolean_poly.write_if_changed().items()})
         except Exception as e:
             Lean._built = (False, 'pytolean failed: ' + ''.join(traceback.format_exception_only(type(e), e)))
             return Lean._built
